@@ -51,6 +51,8 @@ def run(ctx):
         desc = {"op": t0["op"], "args": t0["args"], "world": t0["world"]}
         ctx.evaluations += 1
         ctx.count("op:" + t0["op"])
+        for _k in catalogue.features(t0):
+            ctx.count("feature:" + _k)
         if len(ctx.samples) < 3:
             ctx.samples.append({"op": t0["op"], "args": t0["args"], "shape": t0["world"]["shape"], "dtypes": DTYPES})
         rs = {t["dtype"]: res[t["id"]] for t in ts}
